@@ -97,6 +97,11 @@ def pp(x) -> str:
         return f"<{a[0]}>{pp(a[1])}"
     if k == "cond":
         return f"({pp(a[1])} if {pp(a[0])} else {pp(a[2])})"
+    if k == "listcomp":
+        return f"[{pp(a[0])} for {pp(a[1])} in {pp(a[2])}]"
+    if k == "fstr":
+        return "f'" + "".join("{" + pp(v) + "}" if v.k != "str" else v.a[0]
+                               for v in a[0]) + "'"
     return f"<{k} {a}>"
 
 
@@ -343,6 +348,16 @@ class _Conv:
         if tn == "CondExprNode":
             return X("cond", self.expr(getattr(n, "test", None) or n.condition), self.expr(n.true_val),
                      self.expr(n.false_val), line=line)
+        if tn == "JoinedStrNode":
+            # f-string: a message; its pieces are kept for name look-ups
+            return X("fstr", [self.expr(getattr(v, "value", v)) for v in n.values],
+                     line=line)
+        if tn == "ComprehensionNode" and type(n.loop).__name__ == "ForInStatNode" and \
+                type(n.loop.body).__name__ == "ComprehensionAppendNode" and \
+                type(n.loop.iterator).__name__ == "IteratorNode":
+            # [elt for target in seq]
+            return X("listcomp", self.expr(n.loop.body.expr), self.expr(n.loop.target),
+                     self.expr(n.loop.iterator.sequence), line=line)
         self.mod.unhandled.append(f"expr {tn} at line {line}")
         return X("other", tn, line=line)
 
